@@ -219,6 +219,28 @@ def run_check(pid, tier, replay_case=None, quiet=False):
             json.dump({"property": pid, "tier": tier, "key": v["key"], "detail": v["detail"], "replay": v["replay"]}, f, indent=1)
         unlisted.append((v, rp))
     cov = rep["coverage"]
+    # auxiliary free-running pass under the race detector (thorough tier, or VERIF_RACE=1)
+    if cfg.get("race_test") and replay_case is None and (tier == "thorough" or os.environ.get("VERIF_RACE") == "1"):
+        renv = dict(env)
+        renv.pop("VERIF_OUT", None)
+        pr = go_test(ov, cfg["pkg"], cfg["race_test"], renv, 1800, extra_args=("-race",))
+        races = pr.stdout.count("WARNING: DATA RACE")
+        with open(os.path.join(outdir, "%s.race.log" % pid), "w") as f:
+            f.write(pr.stdout)
+        cov["race_pass"] = {"test": cfg["race_test"], "ran": True, "data_races": races,
+                            "ok": pr.returncode == 0, "note": "free-running -race run of the same bodies; auxiliary, not exhaustive"}
+        if races or pr.returncode != 0:
+            m = re.search(r"WARNING: DATA RACE\n(.*?\n.*?\n.*?\n)", pr.stdout, re.S)
+            first = (m.group(1) if m else pr.stdout[-600:]).strip()
+            frames = re.findall(r"^  ([\w./()*-]+)\(\)", pr.stdout, re.M)[:2]
+            key = "data race under -race: " + " <- ".join(frames) if races else "race pass failed: " + first[:120]
+            rp = os.path.join(VERIF, "replays" if REPO == "/repo" else "build/replays-scratch", pid)
+            os.makedirs(rp, exist_ok=True)
+            rpf = os.path.join(rp, "race.json")
+            with open(rpf, "w") as f:
+                json.dump({"property": pid, "tier": tier, "key": key, "detail": pr.stdout[-6000:], "replay": {"case": ""}}, f, indent=1)
+            if not any(k["key"] == key for k in known):
+                unlisted.append(({"key": key, "detail": pr.stdout[-3000:]}, rpf))
     level = cfg["category"]
     ev = {
         "property_id": pid,
